@@ -342,8 +342,16 @@ func (e *Env) build(p *prog.Program, f *Front, hooks *minicl.Hooks, ce *CorpusEn
 		}
 	}
 	if f.NFiles > 0 && len(f.FileAssign) > 0 {
+		groupFile := map[any]string{}
 		for i, s := range c.Syms() {
 			s.File = fmt.Sprintf("m%d.go", mod(f.FileAssign[i%len(f.FileAssign)], f.NFiles))
+			if g := s.Group(); g != nil { // a grouped declaration stays in one file
+				if gf, ok := groupFile[g]; ok {
+					s.File = gf
+				} else {
+					groupFile[g] = s.File
+				}
+			}
 		}
 	}
 	r.Declared, r.Bodies, _ = c.Analyse()
